@@ -194,7 +194,10 @@ BYTES_RULE = ("bytes: real proxy between a raw client and fakecass; per case a (
               "response header/body at the client; overridden requests decoded with the reference codec and compared field by field; distinct = distinct configurations")
 PROPS["C03"] = {
     "module": "CqlVerif.Props.C03",
-    "streams": [BYTES_STREAM],
+    # late: what a client receives on a stream is the backend's answer to what it sent there (backend ids recycled, the
+    # connection's own requests answered late); ks: a request is forwarded - not answered by the proxy - whatever
+    # USE statements, accepted or rejected, came before it on the connection
+    "streams": [BYTES_STREAM, {"name": "late", "quick": 40, "thorough": 3000}, {"name": "ks", "quick": 400, "thorough": 10000}],
     "shrink": False,
     "claim": "Lean theorems header_roundtrip (every 9-byte v3+ header), forward_transparent (every raw frame: any version byte, flags, opcode, body of any length/content; only the two stream bytes change), forward_length over Model/Frame; tied to proxy.go/request.go/clientconn.go by the bytes e2e stream (raw bytes recorded on both sides of the real proxy)",
     "note": "trusted: Lean kernel, hand-written frame model + e2e byte comparison; bufio coalescing/TCP segmentation (streams compared after reassembly); compression is an opaque body for forwarding; v5 modern framing does not exist in the pinned library",
